@@ -45,25 +45,31 @@ Theorem export_refuses_unstored_measurement : forall c t, In (EMeas t None) (e_o
 Proof. exact refuses_unstored_measurement. Qed.
 Print Assumptions export_refuses_unstored_measurement.
 
-(* export_valid, PARTIAL.  Full statement: forall c t, export c = Some t -> exists p, strict_parse t = Some p /\ wf lib_sigs p = true.
-   Proved here: the definitions and the statement shapes (zero, exponent, tuple parameters, measurement) are accepted;
-   the general statement needs a printer/lexer inversion lemma for decimal numerals that is not proved - it is checked
-   by vm_compute of strict_parse on the model's text for every generated circuit in the correspondence run. *)
+(* export_valid, PARTIAL, with the guard no_meas.
+   Full statement: forall c t, no_meas c = true -> export c = Some t -> exists p, strict_parse t = Some p /\ wf lib_sigs p = true.
+   The guard is necessary (export_valid_measure_refuted): Measurement._to_qasm prints `measure q[i] -> c[j]` without the ';'
+   (open known finding measure-without-semicolon; the string is pinned by tests/test_qasm.py and cannot be repaired here).
+   Proved: the definitions and the statement shapes (zero, exponent, tuple parameters) are accepted; the general statement
+   needs a printer/lexer inversion lemma for decimal numerals that is not proved - it is checked by vm_compute of
+   strict_parse on the model's text for every generated measurement-free circuit in the correspondence run. *)
 Theorem export_valid_partial :
   forallb defn_chk export_defns = true /\
   (exists t, qasm_str "rx" [] [0] (PNum (NFloat (FDec false "0" "0"))) = Some t /\ accepted t = true) /\
   (exists t, qasm_str "rx" [] [0] (PNum (NFloat (FExp false "1" None true "09"))) = Some t /\ accepted t = true) /\
-  (exists t, qasm_str "U" [] [0] (PTuple [NFloat (FDec false "1" "0"); NFloat (FDec false "2" "0"); NInt false 3]) = Some t /\ accepted t = true) /\
-  (exists t, op_text export_names (EMeas 1 (Some 0)) = Some t /\ accepted t = true).
+  (exists t, qasm_str "U" [] [0] (PTuple [NFloat (FDec false "1" "0"); NFloat (FDec false "2" "0"); NInt false 3]) = Some t /\ accepted t = true).
 Proof. exact (conj chk_defns_true format_fixed_ok). Qed.
 Print Assumptions export_valid_partial.
+
+(* without the guard: a circuit with a measurement is exported to a text the strict reader rejects *)
+Theorem export_valid_measure_refuted : exists c, no_meas c = false /\ strict_ok c = Some false.
+Proof. exact valid_measure_refuted. Qed.
+Print Assumptions export_valid_measure_refuted.
 
 (* the formatting of the unchanged code is not accepted by the strict reader *)
 Theorem export_valid_unfixed_refuted :
   (exists t, qasm_str_unfixed "rx" [] [0] (PNum (NFloat (FDec false "0" "0"))) = Some t /\ accepted t = false) /\
   (exists t, qasm_str_unfixed "rx" [] [0] (PNum (NFloat (FExp false "1" None true "09"))) = Some t /\ accepted t = false) /\
-  (exists t, qasm_str_unfixed "U" [] [0] (PTuple [NFloat (FDec false "1" "0"); NFloat (FDec false "2" "0"); NInt false 3]) = Some t /\ accepted t = false) /\
-  accepted (meas_text_unfixed 1 0) = false.
+  (exists t, qasm_str_unfixed "U" [] [0] (PTuple [NFloat (FDec false "1" "0"); NFloat (FDec false "2" "0"); NInt false 3]) = Some t /\ accepted t = false).
 Proof. exact format_unfixed_refuted. Qed.
 Print Assumptions export_valid_unfixed_refuted.
 
@@ -74,6 +80,10 @@ Proof.
   split; [vm_compute; tauto|]. split; [vm_compute; reflexivity|].
   split; eexists; (split; [vm_compute; reflexivity|]); vm_compute; reflexivity.
 Qed.
+Example guard_satisfiable : no_meas (mkEC 2 1 [EGate "X" [0] [] PNone false]) = true /\
+  strict_ok (mkEC 2 1 [EGate "X" [0] [] PNone false]) = Some true /\
+  accepted (meas_text 1 0) = false /\ accepted (meas_text 1 0 ++ ";")%string = true.
+Proof. exact (conj (proj1 valid_without_measure) (conj (proj2 valid_without_measure) measure_line_with_semicolon)). Qed.
 Example refuses_instance : export (mkEC 2 0 [EGate "CSIGN" [1] [0] PNone false]) = None /\
   export (mkEC 1 0 [EGate "RX" [0] [] (PNum (NFloat (FInf false))) false]) = None.
 Proof. split; vm_compute; reflexivity. Qed.
